@@ -905,12 +905,33 @@ Proof.
 Qed.
 
 (* ---------- witnesses ---------- *)
+(* cache entries hold float32 values (Flocq records with proofs): the witnesses never ask Coq to print a cached system, only
+   booleans / integers computed from it *)
+Lemma cold_of_forallb L rt ca : forallb (fun x => negb (ce_valid L rt (snd x))) ca = true -> cold L rt ca.
+Proof.
+  intros H c g e Hg. apply cache_get_in in Hg. rewrite forallb_forall in H. specialize (H _ Hg). cbn [snd] in H.
+  apply negb_true_iff. exact H.
+Qed.
+
 Definition ex_stale_hist : list (Z * Z * cop) :=
   [(0, 1000, CO (OStorage (SetBrokerOffset 1 1 0 1 100))); (0, 1000, CO (OStorage (SetBrokerOffset 1 2 0 1 200)));
    (0, 1000, CO (OStorage (SetConsumerOffset 1 1 1 0 90 1 999000))); (0, 1000, CO (OStorage (SetConsumerOffset 1 1 2 0 150 2 999500)));
    (0, 1000, CO OScrape);                      (* fills the cache *)
    (100, 1001, CO (OTopicDeleted 1 1));        (* StorageSetDeleteTopic + DeleteTopicMetrics *)
    (200, 1001, CO OScrape)].                   (* cache still valid (L = 1000): the stale status is served *)
+
+Lemma ex_stale_hist_ok : Forall (fun x => cop_ok (snd x)) ex_stale_hist.
+Proof. unfold ex_stale_hist. repeat constructor; cbn; unfold in_i64; lia. Qed.
+
+Definition then_scrape (prune : bool) (sc : sconfig) (L rt now : Z) (o : option csys) : option csys :=
+  match o with Some cs => cscrape_gen prune sc L rt now cs | None => None end.
+Definition obs_reg (o : option csys) (k : key) : option Z :=
+  match o with Some cs => reg_get (s_reg (cs_sys cs)) k | None => None end.
+Definition obs_expected (sc : sconfig) (now : Z) (o : option csys) (k : key) : option Z :=
+  match o with Some cs => expected sc now (s_st (cs_sys cs)) k | None => None end.
+Definition obs_cold (L rt : Z) (o : option csys) : bool :=
+  match o with Some cs => forallb (fun x => negb (ce_valid L rt (snd x))) (cs_cache cs) | None => false end.
+Definition obs_some (o : option csys) : bool := match o with Some _ => true | None => false end.
 
 (* before cc5e0f6: the series re-created from the cached status are never removed again - here still there at a cold scrape
    four lifetimes later, although the state no longer calls for them *)
@@ -920,14 +941,17 @@ Theorem stale_status_repopulates_v1_refuted :
     cold L rt (cs_cache cs) /\ cscrape_v1 sc L rt now cs = Some cs' /\
     names_topic 1 1 k = true /\ reg_get (s_reg (cs_sys cs')) k <> expected sc now (s_st (cs_sys cs')) k.
 Proof.
-  destruct (crun_gen false (wsc 1 604800) 1000 (init_csys [1]) ex_stale_hist) as [cs|] eqn:E; [|vm_compute in E; discriminate].
-  destruct (cscrape_v1 (wsc 1 604800) 1000 5000 1005 cs) as [cs'|] eqn:E2;
-    [|vm_compute in E; injection E as <-; vm_compute in E2; discriminate].
+  set (o1 := crun_gen false (wsc 1 604800) 1000 (init_csys [1]) ex_stale_hist).
+  set (o2 := then_scrape false (wsc 1 604800) 1000 5000 1005 o1).
+  assert (H2 : obs_some o2 = true) by (vm_compute; reflexivity).
+  assert (Hc : obs_cold 1000 5000 o1 = true) by (vm_compute; reflexivity).
+  assert (Hr : obs_reg o2 (KPart PLag 1 1 1 0) = Some 10) by (vm_compute; reflexivity).
+  assert (Hx : obs_expected (wsc 1 604800) 1005 o2 (KPart PLag 1 1 1 0) = None) by (vm_compute; reflexivity).
+  destruct o1 as [cs|] eqn:E1; [|discriminate]. unfold o2, then_scrape in *. clear o2.
+  destruct (cscrape_gen false (wsc 1 604800) 1000 5000 1005 cs) as [cs'|] eqn:E2; [|discriminate].
   exists (wsc 1 604800), [1], 1000, ex_stale_hist, cs, 5000, 1005, cs', (KPart PLag 1 1 1 0).
-  split; [unfold ex_stale_hist; repeat constructor; cbn; unfold in_i64; lia|]. split; [reflexivity|].
-  vm_compute in E. injection E as <-. split.
-  - intros c g e. cbn [cs_cache cache_get]. destruct ((1 =? c) && (1 =? g)); [|discriminate]. intros H. injection H as <-. reflexivity.
-  - split; [exact E2|]. split; [reflexivity|]. vm_compute in E2. injection E2 as <-. vm_compute. discriminate.
+  split; [apply ex_stale_hist_ok|]. split; [exact E1|]. split; [apply cold_of_forallb; exact Hc|]. split; [exact E2|].
+  split; [reflexivity|]. cbn [obs_reg obs_expected] in Hr, Hx. rewrite Hr, Hx. discriminate.
 Qed.
 
 (* after cc5e0f6, same history: the stale status is shown while the cache entry is valid, and is gone at the cold scrape *)
@@ -941,8 +965,17 @@ Example stale_status_bounded :
     reg_get (s_reg (cs_sys cs')) (KPart PLag 1 1 1 0) = None /\
     reg_get (s_reg (cs_sys cs')) (KPart PLag 1 1 2 0) = Some 50.
 Proof.
-  eexists. eexists. split; [unfold ex_stale_hist; repeat constructor; cbn; unfold in_i64; lia|].
-  split; [vm_compute; reflexivity|]. repeat (split; [vm_compute; reflexivity|]). vm_compute. reflexivity.
+  set (o1 := crun (wsc 1 604800) 1000 (init_csys [1]) ex_stale_hist).
+  set (o2 := then_scrape true (wsc 1 604800) 1000 5000 1005 o1).
+  assert (H2 : obs_some o2 = true) by (vm_compute; reflexivity).
+  assert (Ha : obs_reg o1 (KPart PLag 1 1 1 0) = Some 10) by (vm_compute; reflexivity).
+  assert (Hb : obs_reg o1 (KTopic 1 1 0) = None) by (vm_compute; reflexivity).
+  assert (Hc : obs_reg o2 (KPart PLag 1 1 1 0) = None) by (vm_compute; reflexivity).
+  assert (Hd : obs_reg o2 (KPart PLag 1 1 2 0) = Some 50) by (vm_compute; reflexivity).
+  destruct o1 as [cs|] eqn:E1; [|discriminate]. unfold o2, then_scrape in *. clear o2.
+  fold (cscrape (wsc 1 604800) 1000 5000 1005 cs) in *.
+  destruct (cscrape (wsc 1 604800) 1000 5000 1005 cs) as [cs'|] eqn:E2; [|discriminate].
+  exists cs, cs'. split; [apply ex_stale_hist_ok|]. cbn [obs_reg] in *. auto 10.
 Qed.
 
 (* the side condition about topic deletion (op_ok) is needed in this model as well *)
@@ -952,9 +985,133 @@ Theorem bare_delete_topic_refuted_c :
     reg_get (s_reg (cs_sys cs')) k <> expected sc now (s_st (cs_sys cs')) k.
 Proof.
   set (h := [(0, 1000, CO (OStorage (SetBrokerOffset 1 1 0 1 100))); (0, 1001, CO OScrape); (0, 1002, CO (OStorage (DeleteTopic 1 1)))]).
-  destruct (crun (wsc 1 604800) 0 (init_csys [1]) h) as [cs|] eqn:E; [|vm_compute in E; discriminate].
-  destruct (cscrape (wsc 1 604800) 0 0 1003 cs) as [cs'|] eqn:E2; [|vm_compute in E; injection E as <-; vm_compute in E2; discriminate].
+  set (o1 := crun (wsc 1 604800) 0 (init_csys [1]) h).
+  set (o2 := then_scrape true (wsc 1 604800) 0 0 1003 o1).
+  assert (H2 : obs_some o2 = true) by (vm_compute; reflexivity).
+  assert (Hr : obs_reg o2 (KTopic 1 1 0) = Some 100) by (vm_compute; reflexivity).
+  assert (Hx : obs_expected (wsc 1 604800) 1003 o2 (KTopic 1 1 0) = None) by (vm_compute; reflexivity).
+  destruct o1 as [cs|] eqn:E1; [|discriminate]. unfold o2, then_scrape in *. clear o2.
+  fold (cscrape (wsc 1 604800) 0 0 1003 cs) in *.
+  destruct (cscrape (wsc 1 604800) 0 0 1003 cs) as [cs'|] eqn:E2; [|discriminate].
   exists (wsc 1 604800), [1], 0, h, cs, 0, 1003, cs', (KTopic 1 1 0).
-  split; [exact E|]. split; [apply cold_zero|]. split; [exact E2|].
-  vm_compute in E. injection E as <-. vm_compute in E2. injection E2 as <-. vm_compute. discriminate.
+  split; [exact E1|]. split; [apply cold_zero|]. split; [exact E2|]. cbn [obs_reg obs_expected] in Hr, Hx. rewrite Hr, Hx. discriminate.
+Qed.
+
+(* ====================================================================================================
+   Totality: no request of a well-formed history makes storage or the evaluator panic, and the /metrics handler
+   never dereferences nil (the model's None)
+   ==================================================================================================== *)
+From Burrow Require Import RingProofs StorageWindows.
+
+Definition shaped (cp : cpart) : Prop := exists b cs, cp_offsets cp = repeat None b ++ map Some cs.
+
+Lemma eval_parts_total t m a n cps : Forall shaped cps -> forall k, exists l, eval_parts t k cps m a n = Ok l.
+Proof.
+  induction 1 as [|cp r (b & cs & Hsh) _ IH]; intros k; cbn [eval_parts]; [eauto|].
+  destruct (eval_partition_no_crash b cs cp m a n Hsh) as ([[[s st] en] c] & ->).
+  destruct (IH (k + 1)) as (l & ->). eauto.
+Qed.
+
+Lemma eval_topics_total m a n l :
+  (forall t cps, In (t, cps) l -> Forall shaped cps) -> exists parts, eval_topics l m a n = Ok parts.
+Proof.
+  induction l as [|[t cps] r IH]; intros H; cbn [eval_topics]; [eauto|].
+  destruct (eval_parts_total t m a n cps (H t cps (or_introl eq_refl)) 0) as (l1 & ->).
+  destruct IH as (l2 & ->); [intros t0 c0 Hin; apply (H t0 c0); right; exact Hin|]. eauto.
+Qed.
+
+Lemma eval_group_total m a n l :
+  (forall t cps, In (t, cps) l -> Forall shaped cps) -> exists gs, eval_group l m a n = Ok gs.
+Proof.
+  intros H. unfold eval_group. destruct (eval_topics_total m a n l H) as (parts & ->).
+  destruct (fold_left fold_part parts (StOK, None, 0, [])) as [[[st mx] nc] lst]. eauto.
+Qed.
+
+Lemma good_step_total cf cls now st r :
+  (1 <= cf_intervals cf)%nat -> good cf cls st -> wf_req r -> exists st' rep, step cf now st r = Done st' rep.
+Proof.
+  intros HN (h & reps & Hwf & Hrun) Hr.
+  destruct (run_hinv cf cls (h ++ [(now, r)]) HN) as (st2 & reps2 & Hrun2 & _); [apply wf_hist_snoc; split; assumption|].
+  rewrite StorageProofs.run_snoc, Hrun in Hrun2. destruct (step cf now st r) as [st' rep|]; [eauto|discriminate].
+Qed.
+
+Lemma sys_status_total sc cls now sy c g :
+  (1 <= cf_intervals (sc_st sc))%nat -> good (sc_st sc) cls (s_st sy) -> exists sy' o, sys_status sc now sy c g = Some (sy', o).
+Proof.
+  intros HN Hg. destruct (good_step_total _ _ now _ (FetchConsumer c g) HN Hg I) as (st' & rep & Hstep).
+  unfold sys_status, sys_status_gen, sys_storage_gen. rewrite Hstep.
+  destruct rep; eauto. cbn [step] in Hstep.
+  destruct Hg as (h & reps & Hwf & Hrun).
+  destruct (eval_group_total (sc_minimum sc) (sc_allowed sc) now l) as (gs & ->); [|eauto].
+  intros t cps Hin. apply Forall_forall. intros cp Hcp. apply In_nth_error in Hcp. destruct Hcp as (i & Hi).
+  destruct (storage_reply_windows _ _ _ _ _ _ _ _ _ _ _ _ _ _ HN Hwf Hrun Hstep Hin Hi) as [E|(_ & b & cs & E & _)].
+  - exists O, []. rewrite E. reflexivity.
+  - exists b, cs. exact E.
+Qed.
+
+Lemma cgroup_step_total sc cls L rt now c cs g :
+  (1 <= cf_intervals (sc_st sc))%nat -> good (sc_st sc) cls (s_st (cs_sys cs)) -> exists cs', cgroup_step true sc L rt now c cs g = Some cs'.
+Proof.
+  intros HN Hg. unfold cgroup_step, cstatus.
+  destruct (sys_status_total sc cls now (cs_sys cs) c g HN Hg) as (sy' & o & Hs). rewrite Hs.
+  destruct (cache_get (cs_cache cs) c g) as [e|]; [destruct (ce_valid L rt e); [destruct (ce_res e)|destruct o]|destruct o]; eauto.
+Qed.
+
+Lemma cscrape_groups_total sc cls L rt now c gs : forall cs,
+  (1 <= cf_intervals (sc_st sc))%nat -> good (sc_st sc) cls (s_st (cs_sys cs)) -> exists cs', cscrape_groups true sc L rt now c gs cs = Some cs'.
+Proof.
+  induction gs as [|g rest IH]; intros cs HN Hg; cbn [cscrape_groups]; [eauto|].
+  destruct (cgroup_step_total sc cls L rt now c cs g HN Hg) as (cs1 & H1). rewrite H1.
+  apply IH; [exact HN|]. exact (s2_good _ _ _ _ _ (gr_ok2 _ _ _ _ _ _ _ _ _ (cgroup_step_rel sc cls L rt now c cs g cs1 H1)) Hg).
+Qed.
+
+Lemma cscrape_clusters_total sc cls L rt now cl : forall cs,
+  (1 <= cf_intervals (sc_st sc))%nat -> NoDup cls -> good (sc_st sc) cls (s_st (cs_sys cs)) ->
+  exists cs', cscrape_clusters true sc L rt now cl cs = Some cs'.
+Proof.
+  induction cl as [|c rest IH]; intros cs HN Hndc Hg; cbn [cscrape_clusters]; [eauto|].
+  assert (H1 : exists cs1, ccluster_step true sc L rt now cs c = Some cs1).
+  { unfold ccluster_step. destruct (cscrape_groups_total sc cls L rt now c (cluster_groups (s_st (cs_sys cs)) c) cs HN Hg) as (cs1 & ->). eauto. }
+  destruct H1 as (cs1 & H1). rewrite H1. apply IH; [exact HN|exact Hndc|].
+  exact (s2_good _ _ _ _ _ (cl_ok2 _ _ _ _ _ _ _ _ (ccluster_step_rel sc cls L rt now cs c cs1 (proj1 (good_facts _ _ _ HN Hndc Hg)) H1)) Hg).
+Qed.
+
+(* the /metrics handler answers *)
+Theorem cscrape_total sc cls L rt now cs :
+  (1 <= cf_intervals (sc_st sc))%nat -> NoDup cls -> cInv sc cls cs -> exists cs', cscrape sc L rt now cs = Some cs'.
+Proof. intros HN Hndc Hinv. apply (cscrape_clusters_total sc cls); try assumption. apply (ci_good _ _ _ Hinv). Qed.
+
+Lemma sys_storage_total sc cls now sy r :
+  (1 <= cf_intervals (sc_st sc))%nat -> good (sc_st sc) cls (s_st sy) -> wf_req r -> exists sy' rep, sys_storage sc now sy r = Some (sy', rep).
+Proof.
+  intros HN Hg Hr. destruct (good_step_total _ _ now _ r HN Hg Hr) as (st' & rep & Hs).
+  unfold sys_storage, sys_storage_gen. rewrite Hs. eauto.
+Qed.
+
+Lemma cstep_total sc cls L rt now cs o :
+  (1 <= cf_intervals (sc_st sc))%nat -> NoDup cls -> cop_ok o -> cInv sc cls cs -> exists cs', cstep sc L rt now cs o = Some cs'.
+Proof.
+  intros HN Hndc Hok Hinv. pose proof (ci_good _ _ _ Hinv) as Hg.
+  destruct o as [o|]; cbn [cstep cstep_gen cop_ok] in *; [|eauto].
+  destruct o as [r|c t|c g|c g|]; cbn [sys_step op_ok] in *.
+  - destruct Hok as [Hwr _]. destruct (sys_storage_total sc cls now (cs_sys cs) r HN Hg Hwr) as (sy' & rep & ->). eauto.
+  - destruct (sys_storage_total sc cls now (cs_sys cs) (DeleteTopic c t) HN Hg I) as (sy' & rep & ->). eauto.
+  - destruct (sys_storage_total sc cls now (cs_sys cs) (DeleteGroup c g 0) HN Hg I) as (sy' & rep & ->). eauto.
+  - unfold cstatus. destruct (sys_status_total sc cls now (cs_sys cs) c g HN Hg) as (sy' & o & ->).
+    destruct (cache_get (cs_cache cs) c g) as [e|]; [destruct (ce_valid L rt e)|]; eauto.
+  - apply (cscrape_total sc cls); assumption.
+Qed.
+
+(* every well-formed history runs to the end: no storage / evaluator / handler panic anywhere *)
+Theorem crun_total sc cls L h :
+  (1 <= cf_intervals (sc_st sc))%nat -> NoDup cls -> Forall (fun x => cop_ok (snd x)) h ->
+  exists cs, crun sc L (init_csys cls) h = Some cs /\ cInv sc cls cs.
+Proof.
+  intros HN Hndc Hok.
+  assert (G : forall cs0, cInv sc cls cs0 -> exists cs, crun sc L cs0 h = Some cs /\ cInv sc cls cs).
+  { induction h as [|[[rt now] o] rest IH]; intros cs0 Hinv; cbn [crun crun_gen]; [eauto|].
+    inversion Hok as [|x l Ho Hrest]; subst. cbn [snd] in Ho.
+    destruct (cstep_total sc cls L rt now cs0 o HN Hndc Ho Hinv) as (cs1 & H1). unfold cstep in H1. rewrite H1.
+    apply (IH Hrest). eapply cInv_step; eassumption. }
+  apply G. apply cInv_init.
 Qed.
